@@ -494,6 +494,35 @@ def gen_inverse_ops(ctx, n):
     return ops
 
 
+
+def _fresh_child(args, optimize=False):
+    import json
+    import os
+    import subprocess
+    import sys
+    here = os.path.dirname(os.path.abspath(__file__))
+    cmd = [sys.executable] + (["-O"] if optimize else []) + [os.path.join(here, "fresh_child.py")] + list(args)
+    p = subprocess.run(cmd, capture_output=True, text=True, timeout=300, env=dict(os.environ, PYODA_REPO=str(common.REPO)))
+    if p.returncode != 0:
+        return {"__error__": p.stderr[-400:]}
+    return json.loads(p.stdout)
+
+
+def factories_case(_):
+    """the calendars a FRESH interpreter gets when the factories are first called with plain ints (get_hebrew_calendar(2):
+    the C# enum port accepts them) must be the calendars a fresh interpreter gets through the normal accessors"""
+    a, b = _fresh_child(["factories", "plain-ints-first"]), _fresh_child(["factories"])
+    if "__error__" in b:
+        raise RuntimeError(b["__error__"])
+    if "__error__" in a:
+        return {"key": "calendar-factory-plain-int", "what": "a fresh interpreter calling CalendarSystem.get_hebrew_calendar(2) first fails: " + a["__error__"][-200:]}
+    for name in b:
+        if a.get(name) != b[name]:
+            return {"key": "calendar-factory-plain-int", "what": f"{name}: after CalendarSystem.get_hebrew_calendar(2) / (1) were the first calls of the process the "
+                    f"calendar reports {str(a.get(name))[:260]}; through the normal accessors a fresh process gets {str(b[name])[:260]}"}
+    return None
+
+
 def oracle(t):
     op = t[0]
     a = [int(x) for x in t[1:]]
@@ -635,6 +664,7 @@ def run(ctx):
     pcorrespond(ctx, "reference.years", chunks(gen_year_ops(), 1500), impl, oracle, neighbours, exhaustive=True)
     ctx.note("t_years_s", round(time.time() - t0, 1))
     pcorrespond(ctx, "reference.days", chunks(gen_day_ops(ctx, ctx.scale(1500, 100000)), 4000), impl, oracle, neighbours)
+    ctx.check_cases("calendar-factories.fresh-process", ["plain-ints-first"], factories_case)
     pcorrespond(ctx, "reference.day-to-date (same day into sibling calendars, interleaved)",
                 chunks(gen_inverse_ops(ctx, ctx.scale(1200, 60000)), 3400), impl, oracle, neighbours)
     if ctx.thorough:
